@@ -220,7 +220,7 @@ def grid(quick=True):
         for m in range(1, M + 1):
             for s in range(0, M):
                 for mode in (0, 2, 4, 6):
-                    for i0, ims in ((0, 0), (2, 1), (3, 2), (2, 0)):
+                    for i0, ims in ((0, 0), (2, 1), (3, 2), (2, 0), (1, 2), (0, 2)):
                         if i0 >= M:
                             continue
                         yield {"m": m, "M": M, "s": s, "i0": i0, "ims": ims, "mode": mode}
@@ -263,7 +263,14 @@ def evaluate(pid, p, stream, ST, SDS, DS, extra=None):
     try:
         if extra and "first" in extra and pid != "C20":
             # the property must also hold for a tokenizer that was used before
-            tk = reused(ST, SDS, p, extra["first"], extra.get("consume")).tokenize(SDS(stream))
+            if extra.get("consume") == "late":
+                # generator obtained first, tokenizer used on another stream, generator drained afterwards
+                t = mk(ST, p)
+                g = t.tokenize(SDS(stream), generator=True)
+                t.tokenize(SDS(extra["first"]))
+                tk = list(g)
+            else:
+                tk = reused(ST, SDS, p, extra["first"], extra.get("consume")).tokenize(SDS(stream))
         else:
             tk = toks(ST, SDS, p, stream)
     except Exception as e:  # noqa
@@ -286,7 +293,89 @@ def evaluate(pid, p, stream, ST, SDS, DS, extra=None):
     return None
 
 
+def pre_check(pid):
+    """Library-level sentences of C08 / C20 that are not about StreamTokenizer alone."""
+    import auditok
+    from auditok import AudioReader, BufferAudioSource, split
+    from auditok.util import AudioEnergyValidator
+    loud, quiet = b"\x10\x27" * 10, bytes(20)
+    sig = quiet * 3 + loud * 5 + quiet * 4 + loud * 6 + quiet * 3
+    kw = dict(min_dur=0.02, max_dur=0.2, max_silence=0.01, energy_threshold=50)
+    desc = lambda regs: [(round(r.start * 1000), bytes(r)) for r in regs]
+    if pid == "C08":
+        class Counting(BufferAudioSource):
+            asked = 0
+
+            def read(self, size):
+                Counting.asked += size if size and size > 0 else 0
+                return BufferAudioSource.read(self, size)
+        for nblocks in (4, 9, 13):
+            Counting.asked = 0
+            src = Counting(sig, 1000, 2, 1)
+            rd = AudioReader(src, block_dur=0.01, max_read=nblocks * 0.01)
+            rd.open()
+            nreg = 0
+            for r in split(rd, **kw):
+                nreg += 1
+                if Counting.asked > nblocks * 10:
+                    return "split(max_read=%r): %d samples requested from the input when region %d was yielded, the limit is %d" % (
+                        nblocks * 0.01, Counting.asked, nreg, nblocks * 10)
+            if Counting.asked > nblocks * 10:
+                return "split(max_read=%r): %d samples requested from the input in total, the limit is %d" % (
+                    nblocks * 0.01, Counting.asked, nblocks * 10)
+        return None
+    if pid == "C20":
+        data = bytes(range(1, 41))
+        src = BufferAudioSource(data, 10, 2, 1)
+        for upto in (3, None):
+            src.open()
+            first = src.read(4)
+            src.read(upto)
+            src.close()
+            src.open()
+            again = src.read(4)
+            src.close()
+            if first != data[:8] or again != first:
+                return "BufferAudioSource close()/open() after reading: next read gives %r, expected %r" % (again, data[:8])
+        kw["analysis_window"] = 0.01
+        ref = desc(split(sig, sr=1000, sw=2, ch=1, **kw))
+        for what, mkin in (("bytes", lambda: sig), ("region", lambda: auditok.AudioRegion(sig, 1000, 2, 1))):
+            x = mkin()
+            for k in range(3):
+                got = desc(split(x, sr=1000, sw=2, ch=1, **kw)) if what == "bytes" else desc(split(x, **kw))
+                if got != ref:
+                    return "splitting the same %s, time %d: %d regions, first time %d" % (what, k + 1, len(got), len(ref))
+        rec = AudioReader(sig, block_dur=0.01, record=True, sr=1000, sw=2, ch=1)
+        rec.open()
+        for k, prep in enumerate((lambda: None, rec.rewind, rec.rewind, lambda: (rec.rewind(), rec.close(), rec.open()), rec.rewind)):
+            prep()
+            got = desc(split(rec, **{k_: v_ for k_, v_ in kw.items() if k_ != "analysis_window"}))
+            if got != ref:
+                return "recorder split number %d (after rewind%s): %d regions, expected %d" % (
+                    k + 1, "/close/open" if k == 3 else "", len(got), len(ref))
+        for use in (None, 0):
+            v = AudioEnergyValidator(50, 2, 1) if use is None else AudioEnergyValidator(50, 2, 2, use_channel=use)
+            w1, w2 = (loud, quiet) if use is None else (loud + loud, quiet + quiet)
+            fresh = lambda w: (AudioEnergyValidator(50, 2, 1) if use is None else AudioEnergyValidator(50, 2, 2, use_channel=use)).is_valid(w)
+            seq = [w1, w2, w2, w1, w1, w2, w1]
+            for i, w in enumerate(seq):
+                if bool(v.is_valid(w)) != bool(fresh(w)):
+                    return "validator verdict for window %d of %r differs from a fresh validator's" % (i, ["L" if x is w1 else "q" for x in seq])
+            buf = bytearray(w1)
+            a = bool(v.is_valid(buf))
+            buf[:] = w2
+            b = bool(v.is_valid(buf))
+            if a != bool(fresh(w1)) or b != bool(fresh(w2)):
+                return "validator verdicts (%r, %r) for a window buffer refilled in place, a fresh validator gives (%r, %r)" % (
+                    a, b, bool(fresh(w1)), bool(fresh(w2)))
+        return None
+    return None
+
+
 def search(pid, budget, maxlen):
+    r0 = pre_check(pid)
+    if r0:
+        return {"kind": "tok-api", "pid": pid, "observed": r0}, 1
     ST, SDS, DS = load()
     t0 = time.time()
     n = 0
@@ -303,7 +392,7 @@ def search(pid, budget, maxlen):
             for p in params:
                 if phase == 1 and pid not in ("C20", "C08"):
                     for first in firsts:
-                        for consume in (None, 0, 1):
+                        for consume in (None, 0, 1, "late"):
                             n += 1
                             ex = {"first": first, "consume": consume}
                             r = evaluate(pid, p, stream, ST, SDS, DS, ex)
@@ -345,6 +434,14 @@ def replay(w):
         print("StreamTokenizer(str.isupper, %s): expected %s, observed %s" % (
             ", ".join(map(str, w["args"])), w["expected"], got))
         return 1 if got != w["expected"] else 0
+    if w["kind"] == "tok-api":
+        r = pre_check(w["pid"])
+        print("property %s, library-level scenario; stored observation: %s" % (w["pid"], w["observed"]))
+        if r:
+            print("expected: property holds;  observed: " + r)
+            return 1
+        print("property holds on this scenario")
+        return 0
     r = evaluate(w["pid"], w["params"], w["stream"], ST, SDS, DS, w)
     print("property %s, StreamTokenizer(str.isupper, min_length=%d, max_length=%d, max_continuous_silence=%d, "
           "init_min=%d, init_max_silence=%d, mode=%d) on stream %r%s" % (
